@@ -374,3 +374,43 @@ func vh_C01_decls() {
 	_, _, panicked = vEval(env, vForm(env, "+", &SexpInt{Val: 1}, &SexpInt{Val: 2}))
 	vAssert(!panicked, "no-panic-in-followup")
 }
+
+// vh_C01_selectors: indexing and slicing with arbitrary (also negative and
+// huge) bounds, as a value, as the target of = += ++ and def, on arrays,
+// strings and hashes: a value or an error, never a Go panic.
+func vh_C01_selectors() {
+	vFormatOpaque(true)
+	vBudgetOK()
+	env := vStdEnvs(1)[0]
+	i, j := vInt64("i"), vInt64("j")
+	for _, f := range vT(env, `(def arr [10 20 30]) (def h (hash k: 7 arr: [1 2])) (def txt "abc") (def i 9001) (def j 9002) (def recs [(hash b: 1)])`, &SexpInt{Val: i}, &SexpInt{Val: j}) {
+		if _, err, p := vEval(env, f); err != nil || p {
+			vAssert(false, "selectors-setup")
+			return
+		}
+	}
+	target := []string{"arr[i]", "arr[i:j]", "arr[:j]", "arr[i:]", "txt[i]", "txt[i:j]", "h.arr[i]", "recs[i].b", "arr[i][j]", "h[i]", "arr[i + j]", "arr[-1]", "arr[i:-1]"}[vChoice("target", 13)]
+	var text string
+	switch vChoice("use", 7) {
+	case 0:
+		text = "{ r := " + target + "; r }"
+	case 1:
+		text = "{ " + target + " = 7 }"
+	case 2:
+		text = "{ " + target + " += 1 }"
+	case 3:
+		text = "{ " + target + "++ }"
+	case 4:
+		text = "{ 1 + " + target + " * 2 }"
+	case 5:
+		text = "(def {" + target + "} 9)"
+	default:
+		text = "{ " + target + " = " + target + " }"
+	}
+	vSetStepBudget(400000)
+	_, _, panicked := vEvalString(env, text)
+	vAssert(!panicked, "no-panic-escapes-selector-use")
+	_, _, panicked = vEvalString(env, "(len arr)")
+	vAssert(!panicked, "no-panic-in-followup")
+	vReach("selectors")
+}
